@@ -479,6 +479,15 @@ func keepWrittenPrecision(format NumberFormat, amount *ast.Amount) NumberFormat 
 	return format
 }
 
+// keepWrittenSign keeps the minus sign of an amount written as negative zero
+// (-0, -0.00), which the decimal value itself does not carry.
+func keepWrittenSign(formatted string, amount *ast.Amount) string {
+	if strings.HasPrefix(amount.RawQuantity, "-") && !strings.HasPrefix(formatted, "-") {
+		return "-" + formatted
+	}
+	return formatted
+}
+
 // formatAmountQuantity returns formatted quantity string.
 // Priority: commodity directive format > default format > original raw format > decimal string.
 func formatAmountQuantity(amount *ast.Amount, commodityFormats map[string]NumberFormat) string {
@@ -488,11 +497,11 @@ func formatAmountQuantity(amount *ast.Amount, commodityFormats map[string]Number
 	if commodityFormats != nil {
 		// First try specific commodity format
 		if format, ok := commodityFormats[amount.Commodity.Symbol]; ok {
-			return FormatNumber(amount.Quantity, keepWrittenPrecision(format, amount))
+			return keepWrittenSign(FormatNumber(amount.Quantity, keepWrittenPrecision(format, amount)), amount)
 		}
 		// Then try default format (stored under empty key)
 		if format, ok := commodityFormats[""]; ok {
-			return FormatNumber(amount.Quantity, keepWrittenPrecision(format, amount))
+			return keepWrittenSign(FormatNumber(amount.Quantity, keepWrittenPrecision(format, amount)), amount)
 		}
 	}
 	if amount.RawQuantity != "" {
